@@ -17,34 +17,41 @@ INVS = ("INVARIANT InOrderOnce\nINVARIANT AllWrittenAtFini\nINVARIANT DroppedRep
         "INVARIANT LockLive\nINVARIANT InLoggerSafe\nINVARIANT NoEmptyDequeue\nINVARIANT MemConsistent\nINVARIANT StopPathOK\n")
 
 # ----------------------------------------------------------------------------------------------- findings
-# directed reproducers: schedules for harness/h_logthread.c (controlled mode, backlog scaled to 2 records)
-PRE = ["Backlog 2", "A Init", "A Start", "A SetThreaded 1"]
-ENABLE = ["A Enable 1", "A", "A", "A"]                      # pause, body, resume
-LOG1 = ["A Log 1", "A", "A", "A", "A", "A"]                 # lock, account, append, unlock, post
+# directed reproducers: schedules for harness/h_logthread.c (controlled mode, backlog scaled to 2 records).  `A! call`
+# runs a call to its end whatever number of steps it has, so the same scenario replays on repaired and unrepaired
+# trees; each scenario ends at the step whose outcome differs.
+SETUP = ["Backlog 2", "A! Init", "A! Start", "A! SetThreaded 1", "A! Enable 1"]
+FINI = ["A Fini", "A", "A", "A", "A", "W", "W", "W", "W", "A"]     # stop: lock, set, unlock, post | worker: wait, lock, test, exit | join
+INLOGGER = ["A! Log 1", "W", "W", "W", "W", "W"]                   # worker: wait, lock, test, dequeue, write -> inside the logger
 KF = {
     11: ("KF-C16-1",
-         # the worker takes the token of the last record, stop sets the exit flag, the worker's exit test runs
-         # before stop's own sem_post: it sees should_exit and value 0 and exits with the record still queued
-         [PRE + ENABLE + LOG1 + ["W", "A Fini", "A", "A", "A", "W", "W", "W", "A", "A"]],
+         # the worker takes the token of the last record, stop sets the exit flag, and the worker's exit test runs
+         # before stop's own sem_post
+         [SETUP + ["A! Log 1", "W", "A Fini", "A", "A", "A", "W", "W"]],
          "qb_logt_worker_thread exits when wthread_should_exit is set and the semaphore value is 0 although it has just "
-         "consumed the token of a queued record: if qb_log_thread_stop's sem_post comes after the worker's exit test the "
+         "consumed the token of a queued record: when qb_log_thread_stop's sem_post comes after the worker's exit test the "
          "last message is never written and qb_log_fini returns without it (schedule: post; worker sem_wait; stop lock/set/"
          "unlock; worker lock + exit test; stop sem_post + join)"),
     12: ("KF-C16-2",
-         [["Backlog 2", "A Init", "A SetThreaded 1", "A Enable 1", "A"],                      # NULL lock before start
-          PRE + ENABLE + ["A Fini", "A", "A", "A", "A", "W", "W", "W", "W", "A", "A Init", "A Enable 1", "A"],  # dangling lock after fini + re-init
-          PRE + ["A Fini", "A", "A", "A", "A", "W", "W", "W", "W", "A", "A Init", "A Start", "A SetThreaded 1", "A Enable 1",
-                 "A", "A", "A", "A Log 1", "A", "A", "A", "A", "A", "W", "W", "W", "W", "W", "W", "W"]],            # re-init: thread not restarted
-         "qb_log_ctl on a threaded target locks logt_wthread_lock while it is NULL (before qb_log_thread_start: SEGV in "
-         "qb_thread_lock); qb_log_thread_stop leaves wthread_active, wthread_should_exit and the destroyed lock pointer behind "
-         "and qb_log_init does not reset conf[].threaded, so after qb_log_fini + qb_log_init the first qb_log_ctl / qb_log / "
-         "qb_log_fini uses the freed lock (heap-use-after-free) and qb_log_thread_start starts nothing"),
+         [["Backlog 2", "A! Init", "A! SetThreaded 1", "A! Enable 1"],                          # NULL lock before start
+          SETUP + FINI + ["A! Init", "A! Enable 1"],                                            # dangling lock after fini + re-init
+          SETUP + FINI + ["A! Init", "A! Start", "A! SetThreaded 1", "A! Enable 1", "A! Log 1",
+                          "W", "W", "W", "W", "W", "W", "W"] + FINI],                           # re-init: a second thread must run
+         "qb_log_ctl on a threaded target locks logt_wthread_lock while it is NULL (before qb_log_thread_start: NULL "
+         "dereference in qb_thread_lock); qb_log_thread_stop leaves wthread_active, wthread_should_exit and the destroyed lock "
+         "pointer behind and qb_log_init does not reset conf[].threaded, so after qb_log_fini + qb_log_init the first "
+         "qb_log_ctl / qb_log / qb_log_fini uses the freed lock (heap-use-after-free) and qb_log_thread_start starts nothing"),
     13: ("KF-C16-3",
-         [PRE + ENABLE + LOG1 + ["W", "W", "W", "W", "W", "A Close"],                        # close while the worker is inside the logger
-          PRE + ENABLE + LOG1 + ["W", "W", "W", "W", "W", "A SetThreaded 0", "A Enable 0"]],  # un-thread, then disable unpaused
+         [SETUP + INLOGGER + ["A Close"],                   # close while the worker is inside the logger
+          SETUP + INLOGGER + ["A SetThreaded 0"]],          # un-thread without waiting: the next qb_log_ctl does not pause either
          "qb_log_custom_close (and so qb_log_file_close) never waits for the logging thread, and qb_log_ctl stops waiting once "
          "QB_LOG_CONF_THREADED was switched off: the target is closed/disabled (its close function runs) while the logging "
          "thread is inside the target's logger"),
+}
+# the consequence of each finding on the unrepaired tree, replayed in full and judged under the design as found
+DEMO = {
+    11: (SETUP + ["A! Log 1", "W", "A Fini", "A", "A", "A", "W", "W", "W", "A", "A"], "AllWrittenAtFini"),
+    13: (SETUP + INLOGGER + ["A SetThreaded 0", "A Enable 0"], "InLoggerSafe"),
 }
 
 
@@ -67,30 +74,52 @@ def run_sched(ctx, exe, lines, tag):
     return rc, s, t, se
 
 
+CANDIDATES = [{11, 12, 13}, {11, 12}, {12, 13}, {11}, {12}, set()]     # repair 13 presupposes repair 12
+
+
 def probe(ctx, exe):
-    """which of the recorded findings does the implementation under test still have?  Each reproducer is judged
-    against the REPAIRED design (Fixes = all): rejected = the finding is still there."""
+    """which of the recorded findings does the implementation under test still have?  Every reproducer is run once on
+    the real code.  The tree's set of repairs is the largest F such that every reproducer of every finding in F runs
+    to its end and is accepted by TLC under the design with repairs F; the findings outside F are still present."""
     status = {k["id"]: k.get("status") for k in core.load_known()}
-    cfg = trace_cfg(ctx, {11, 12, 13}, 2, "LogThreadTrace_probe.cfg")
-    present = set()
+    runs = {}
     for n, (kfid, scheds, what) in sorted(KF.items()):
-        hit = None
         for i, lines in enumerate(scheds):
             rc, s, t, se = run_sched(ctx, exe, lines, "%s-%d" % (kfid, i))
             if rc not in (0, 99, 98) and rc < 128:
                 raise core.Infra("reproducer %s-%d: harness failed (rc=%d): %s" % (kfid, i, rc, se[-2000:]))
-            if rc != 0:
-                hit = "variant %d: %s" % (i, ([x for x in se.splitlines() if "ERROR" in x or "runtime error" in x] or ["exit %d" % rc])[0][:160])
-            else:
-                v = ctx.validate("LogThreadTrace.tla", cfg, t)
-                if not v.accepted:
-                    hit = "variant %d: trace rejected at event %d (%s)" % (i, v.matched + 1, v.violated or "no matching action")
-            if hit:
-                break
-        if not hit:
+            crash = ([x for x in se.splitlines() if "ERROR" in x or "runtime error" in x] or ["exit %d" % rc])[0][:160] if rc else None
+            runs[(n, i)] = (crash, t)
+    verdict = {}
+
+    def ok(F, n, i):
+        crash, t = runs[(n, i)]
+        if crash:
+            return False
+        key = (tuple(sorted(F)), n, i)
+        if key not in verdict:
+            verdict[key] = ctx.validate("LogThreadTrace.tla", trace_cfg(ctx, F, 2), t).accepted
+        return verdict[key]
+
+    fixes = set()
+    for F in CANDIDATES:
+        if all(ok(F, n, i) for n in sorted(F) for i in range(len(KF[n][1]))):
+            fixes = F
+            break
+    present = {11, 12, 13} - fixes
+    for n in sorted(KF):
+        kfid, scheds, what = KF[n]
+        if n not in present:
             ctx.notes.append("%s does not reproduce: the implementation is checked against the design WITH repair %d" % (kfid, n))
             continue
-        present.add(n)
+        crashes = ["variant %d: %s" % (i, runs[(n, i)][0]) for i in range(len(scheds)) if runs[(n, i)][0]]
+        hit = crashes[0] if crashes else "the replayed schedule is rejected by the repaired design"
+        if n in DEMO and not (n == 13 and 12 in fixes and False):
+            rc, s_, t_, se = run_sched(ctx, exe, DEMO[n][0], "%s-demo" % kfid)
+            if rc == 0:
+                v = ctx.validate("LogThreadTrace.tla", trace_cfg(ctx, fixes, 2), t_)
+                if not v.accepted and v.violated == DEMO[n][1]:
+                    hit = "replayed on the real code to the end: TLC reports %s violated at event %d" % (v.violated, v.matched + 1)
         if status.get(kfid) == "fixed":
             p = ctx.save(kfid + ".sched", "\n".join(scheds[0]) + "\n")
             ctx.violation("%s is recorded as fixed but its reproducer is rejected again (%s)" % (kfid, hit), p)
@@ -201,3 +230,132 @@ def to_lines_limit(limit):
     def f(h):
         return ["Backlog %d" % limit] + list(h)
     return f
+
+
+def simulate(ctx, fixes, skip, consts, num, depth, tag):
+    """random walks of the model for constants beyond the covered graph (TLC -simulate on LogThreadGen)"""
+    cfg = ctx.cfg("LogThreadGen_%s.cfg" % tag, "CONSTANTS NMsgs = %d  Limit = %d  MaxInits = %d\nCONSTANT Fixes = %s\nCONSTANT Skip = %s\n"
+                  "SPECIFICATION GenSpec\nCONSTRAINT Emit\nCHECK_DEADLOCK FALSE\n" % (consts[0], consts[1], consts[2], tla_set(fixes), tla_set(skip)))
+    r = ctx._tlc("LogThreadGen.tla", cfg, 1, extra=["-simulate", "num=%d" % num, "-depth", str(depth + 5), "-seed", str(ctx.seed)],
+                 env={"DEPTH": str(depth)}, timeout=1200, jvm=("-Xmx4g",), tag="gen-" + tag)
+    r.parse()
+    if r.rc != 0 or r.infra_error:
+        raise core.Infra("TLC simulation failed on LogThreadGen (rc=%d):\n%s" % (r.rc, r.out[-3000:]))
+    hs, seen = [], set()
+    for line in r.out.splitlines():
+        if line.startswith('"GEN '):
+            h = json.loads(json.loads(line)[4:])
+            key = json.dumps(h)
+            if key not in seen and h:
+                seen.add(key)
+                hs.append([" ".join(str(x) for x in st) for st in h])
+    ctx.log("simulated %d distinct walks (NMsgs=%d Limit=%d MaxInits=%d, %.1fs)" % (len(hs), consts[0], consts[1], consts[2], r.wall))
+    return hs
+
+
+def free_programs(rng, n, present):
+    """seeded free-running programs: message counts up to and beyond the real 512000-byte backlog limit"""
+    progs = []
+    for i in range(n):
+        p = ["Free", "Init"]
+        setup = ["Start", "SetThreaded 1", "Enable 1"]
+        if 12 not in present:
+            rng.shuffle(setup)                 # any order is legal once the NULL-lock finding is repaired
+        p += setup
+        kind = i % 4
+        if kind == 0:                          # burst against a held worker: fills the backlog, drops, report
+            ln = rng.choice([100, 250, 400, 500])
+            fill = 512000 // (ln + 49) + 1
+            p += ["Burst %d %d 0" % (rng.randint(1, 30), rng.choice([16, 80, 300])), "Hold",
+                  "Burst %d %d 0" % (fill + rng.randint(-40, 300), ln), "Release",
+                  "Burst %d %d %d" % (rng.randint(0, 200), rng.choice([40, 200]), rng.choice([0, 5]))]
+        elif kind == 1:                        # free race of producer and logging thread, control calls in between
+            for _ in range(rng.randint(2, 6)):
+                p.append("Burst %d %d %d" % (rng.randint(1, 400), rng.choice([8, 60, 200, 509]), rng.choice([0, 0, 2, 20])))
+                p.append(rng.choice(["Conf", "Enable 1", "SetThreaded 1", "Start", "Sleep 300"]))
+        elif kind == 2:                        # slow logging thread, fini while much is still queued
+            p += ["Slow %d" % rng.choice([20, 100, 400]), "Burst %d %d %d" % (rng.randint(50, 900), rng.choice([100, 450]), 0)]
+        else:                                  # exactly at the limit, twice
+            ln = rng.choice([151, 463])
+            fill = 512000 // (ln + 49)
+            p += ["Hold", "Burst %d %d 0" % (fill + rng.choice([-1, 0, 1, 2]), ln), "Release", "Sleep 2000",
+                  "Hold", "Burst %d %d 0" % (fill + rng.choice([0, 1, 5]), ln), "Release"]
+        p.append("Fini")
+        progs.append(p)
+    return progs
+
+
+ACTIONS = ["CallInit", "CallStart", "CallLog", "CallFini", "CtlEnable0", "CtlEnable1", "CtlConf", "CtlThreaded0", "CtlThreaded1",
+           "CtlClose", "C_Lock", "C_Body", "C_Unlock", "P_Lock", "P_Account", "P_Append", "P_Drop", "P_Unlock", "P_UnlockD",
+           "P_Post", "S_Lock", "S_Set", "S_Unlock", "S_Post", "S_Join", "Wk_SemWait", "Wk_Lock", "Wk_ExitTest", "Wk_Exit",
+           "Wk_Dequeue", "Wk_Write", "Wk_Logger", "Wk_Unlock"]
+EXPECT = {11: "AllWrittenAtFini", 12: "LockLive", 13: "InLoggerSafe"}
+
+
+def run(ctx):
+    q = ctx.quick
+    exe = ctx.cc("h_logthread.c", "asan")
+    # (0) which recorded findings does this tree still have?  -> Fixes / Skip of every configuration below
+    present = probe(ctx, exe)
+    fixes = {11, 12, 13} - present
+    if 13 in fixes and 12 in present:
+        raise core.Infra("repair 13 without repair 12 is not a modelled combination (13 tests the lock pointer that 12 resets)")
+    ctx.cov["findings_present"] = sorted(present)
+    consts = (3, 2, 2) if q else (4, 2, 2)
+    # (1) design check: all interleavings, all control orders.  The design of the tree under test (trigger steps of its
+    #     remaining findings left out) ...
+    dot = os.path.join(ctx.work, "graph.dot")
+    r = ctx.model_check("LogThreadMC.tla", mc_cfg(ctx, "LogThreadMC_tree.cfg", fixes, present, consts), workers=W)
+    ctx.check_vacuity(r, ACTIONS)
+    # ... the repaired design with nothing left out (what the proposed fixes must achieve), safety and liveness ...
+    if present:
+        ctx.model_check("LogThreadMC.tla", mc_cfg(ctx, "LogThreadMC_repaired.cfg", {11, 12, 13}, set(), consts), workers=W)
+    rl = ctx.model_check("LogThreadMC.tla", mc_cfg(ctx, "LogThreadMC_live.cfg", {11, 12, 13}, set(), (3, 2, 2), spec="FairSpec",
+                                                   invs=False, props=("CallsReturn", "FiniReturns")), workers=W)
+    if present and not q:
+        ctx.model_check("LogThreadMC.tla", mc_cfg(ctx, "LogThreadMC_live_tree.cfg", fixes, present, (3, 2, 2), spec="FairSpec",
+                                                  invs=False, props=("CallsReturn", "FiniReturns")), workers=W, count=False)
+    # ... and each remaining finding must still be a counterexample of the design as found (keeps the model honest)
+    for n in sorted(present):
+        r2 = ctx.model_check("LogThreadMC.tla", mc_cfg(ctx, "LogThreadMC_kf%d.cfg" % n, fixes, present - {n}, (3, 2, 2)),
+                             workers=W, expect_violation=EXPECT[n], count=False)
+        if r2.violated != EXPECT[n]:
+            raise core.Infra("the model of the code as found no longer yields finding %d (%s)" % (n, r2.violated))
+    # (2) spec -> code -> spec: an edge cover of the reachable graph of the tree's design, replayed step by step on the
+    #     real threads under the hook scheduler; every step's observations are validated by TLC
+    gc = (3, 2, 2)
+    init, g, rg = dump_graph(ctx, mc_cfg(ctx, "LogThreadMC_graph.cfg", fixes, present, gc), "graph")
+    paths = edge_cover(init, g, ctx.rng)
+    nedges = sum(len(v) for v in g.values())
+    if q and len(paths) > 1500:
+        paths = ctx.rng.sample(paths, 1500)
+        ctx.cov["edge_cover_complete"] = False
+    else:
+        ctx.cov["edge_cover_complete"] = True
+    ctx.cov["graph_edges"] = nedges
+    ctx.cov["cover_paths"] = len(paths)
+    ctx.sample({"cover_path": paths[len(paths) // 2][:60]})
+    tcfg = trace_cfg(ctx, fixes, gc[1])
+    ctx.exec_validate(exe, paths, to_lines_limit(gc[1]), "LogThreadTrace.tla", tcfg, nshards=4, label="c16-cover", timeout=1500)
+    # (3) random walks of a larger configuration (more messages, deeper backlog, more init cycles)
+    big = (8, 3, 3) if q else (12, 4, 3)
+    walks = simulate(ctx, fixes, present, big, 300 if q else 4000, 220 if q else 320, "sim")
+    ctx.sample({"random_walk": walks[0][:60]})
+    ctx.exec_validate(exe, walks, to_lines_limit(big[1]), "LogThreadTrace.tla", trace_cfg(ctx, fixes, big[1]), nshards=4,
+                      label="c16-walk", timeout=1500)
+    # (4) free-running executions (real timing, real 512000-byte limit): call-level events against LogThreadFree
+    progs = free_programs(ctx.rng, 16 if q else 240, present)
+    ctx.sample({"free_program": progs[0]})
+    ctx.exec_validate(exe, progs, lambda p: p, "LogThreadFreeTrace.tla", os.path.join(core.SPEC, "LogThreadFreeTrace.cfg"),
+                      nshards=4, label="c16-free", timeout=1500)
+    ctx.cov["exhaustive"] = True
+    ctx.assumptions += [
+        "one application thread is producer and controller (the property speaks of a producer; concurrent qb_log calls are discarded by in_logger by design)",
+        "qb_log on the threaded target is generated only while the target is enabled + threaded and the thread was started (the property's precondition); logging to a threaded target before qb_log_thread_start also dereferences the NULL lock (same root cause as KF-C16-2) but is not part of the generated histories",
+        "controlled runs are sequentially consistent interleavings at hook-point granularity (x86 host); the lock is a pthread spinlock on this configuration",
+        "controlled runs scale the 512000-byte backlog limit to a few records by offsetting logt_memory_used once through the pointer carried by the P_LOCKED hook; the free-running runs use the real limit unscaled",
+        "delivery is not demanded of messages that were pending when the target was disabled, un-threaded or closed (the property is silent there); they must still be written at most once and in order",
+        "start failures of the logging thread (pthread_create / scheduling parameters) are not generated",
+        "messages have one fixed size per run in controlled mode; sizes 8..510 bytes in free-running mode",
+    ] + (["trigger steps of the findings still present (%s) are left out of the generated schedules; each has directed reproducers" %
+          ", ".join(KF[n][0] for n in sorted(present))] if present else [])
